@@ -321,6 +321,9 @@ func (w *World) resolveRenames() {
 						how = "method-dropped-receiver:" + old.Recv // the receiver was never used
 					case old.Recv == "" && c.Recv != "" && (old.Sig == withFirstParam(c.Sig, "*"+c.Recv) || old.Sig == withFirstParam(c.Sig, c.Recv) || old.Sig == withFirstParam(c.Sig, key2pkg(key)+"."+c.Recv) || old.Sig == withFirstParam(c.Sig, "*"+key2pkg(key)+"."+c.Recv)):
 						how = "func"
+					case old.Recv != "" && c.Recv == "":
+						// the same name, now a plain function with another parameter list (unused parameters dropped with the receiver)
+						how = "method-dropped-receiver:" + old.Recv
 					}
 					if how == "" {
 						continue
